@@ -1098,6 +1098,13 @@ pub fn run_c15(prop: &str, seed: u64, nstreams: usize, nsyms: usize, trace_path:
         let ns0 = 1 + rng.gen_range(0..nsyms);
         let g = gen_valid(&mut rng, ns0, i);
         check_prefixes(&g.data, g.opt, prop, &mut rng, 12, rep, &mut trace);
+        // "all prefixes": every prefix of the small streams in one write (a cut inside a symbol on which the dry run
+        // and the real run need different numbers of bytes is a matter of one prefix length in several hundred)
+        if g.data.len() <= 400 {
+            let mut none = None;
+            let t: Vec<(usize, Vec<usize>)> = (g.opt.header_len() + 5..=g.data.len()).map(|pl| (pl, vec![])).collect();
+            check_prefixes_at(&g.data, g.opt, prop, &mut rng, 0, &t, rep, &mut none);
+        }
         if rep.samples.len() < 3 {
             rep.sample(json!({"origin": g.origin, "bytes": g.data.len(), "prefixes": 21, "allow_incomplete": true}));
         }
@@ -1237,7 +1244,11 @@ pub fn run_c16(prop: &str, seed: u64, nstreams: usize, nsyms: usize, trace_path:
     for i in 0..nstreams {
         let ns0 = 1 + rng.gen_range(0..nsyms);
         let g = gen_valid(&mut rng, ns0, i);
-        for how in [0usize, 2, 3, 5, 1, 6] {
+        // (how >= 10: the same mutation with allow_incomplete set - a failed write latches the object under that
+        // option like under any other)
+        for how in [0usize, 2, 3, 5, 1, 6, 12, 15] {
+            let inc = how >= 10;
+            let how = how % 10;
             let (data, mname) = mutate(&mut rng, &g, how);
             let gg = GenStream { data: data.clone(), opt: g.opt, origin: String::new(), bounds: g.bounds.clone() };
             let cuts = gen_cuts(&mut rng, &gg, i + how);
@@ -1249,9 +1260,9 @@ pub fn run_c16(prop: &str, seed: u64, nstreams: usize, nsyms: usize, trace_path:
                 data_hex: hex(&data),
                 opt: g.opt,
                 memlimit: None,
-                allow_incomplete: false,
+                allow_incomplete: inc,
                 cuts,
-                origin: format!("{}/{}", g.origin, mname),
+                origin: format!("{}/{}{}", g.origin, mname, if inc { "/allow_incomplete" } else { "" }),
                 mode: "c16".into(),
                 extra_writes: extra,
                 sink_fail: vec![],
